@@ -76,9 +76,15 @@ pub fn termination(rng: &mut Rng) -> Case {
             let id = g.next_op_id();
             let handle = g.rng.usize_below(g.cfg.handles.max(1));
             g.push(Step::Op { id, handle, spec: OpSpec::Disconnect(spec) });
-            if g.rng.coin() {
+            let roll = g.rng.below(6);
+            if roll < 4 {
                 // make sure the DISCONNECT is submitted before what follows
                 g.push(Step::Poll(TaskRef::Op(id)));
+                if roll == 0 {
+                    // the caller abandons the disconnect() future (timeout, select!): the request
+                    // has been submitted all the same
+                    g.push(Step::CancelOp(id));
+                }
                 for _ in 0..g.rng.below(3) {
                     let id2 = g.next_op_id();
                     let kind = *g.rng.pick(&[0usize, 1, 5, 3]);
